@@ -2,10 +2,15 @@ import TextxVerif.Tx.Json
 import TextxVerif.Tx.Sem
 import TextxVerif.Tx.Quirk
 import TextxVerif.Tx.Doc
+import TextxVerif.Peg.GapExt
+import TextxVerif.Tx.GapCompat
 /-! Driver for the textX mirror.
 {"op":"compile","gram":G} → {"ok":{nodes,top,comments,classes,multSensitive}} | {"error":cls,…}
 {"op":"case","gram":G,"cfg":C,"texts":[{"input":s,"toks":[[len|-1]],"groups":[n],"g1":[[null|[start,len]]],"fuel":n}]}
   → {"compiled":<as compile>, "loads":[Outcome]}      (loads only when the grammar compiles)
+  a text may carry "gap":{"p":n,"ins":s,"toks":rows',"g1":g1'} (C22: one gap extension of the text); its answer then has
+  "gap":{"input":extended text,"mirror":Outcome on it,"ok":gapExtOkB,"g1ok":use_regexp_group off or g1CompatB,
+         "same":both Outcomes are equal}   (C22_model_unchanged: ok ∧ g1ok → same)
 Outcome: {"ok":V,"c03":b} | {"err":"syntax"|"semantic:Multiple assignments"|"semantic:None"|"fuel"} | {"bad":what}
 V: {"p":"none"} | {"p":"bool","v":b} | {"p":"int","v":i} | {"p":"str","v":s} | {"p":"float","src":s}
  | {"cls":c,"id":n,"parent":n|null,"attrs":[[name,V]]} | [V]
@@ -92,7 +97,21 @@ def loadText (g : Gram) (c : Compiled) (cfg : Config) (j : Json) : Option Json :
        ("cache", run { cache := true }), ("ws", run { ws := true }),
        ("all", run { alt := true, empty := true, rep := true, sep := true, cache := true, ws := true })]
     else []
-  pure (Json.mkObj ([("mirror", mj), ("sem", sj)] ++ (if fixes.isEmpty then [] else [("fixes", Json.mkObj fixes)])))
+  let gap : List (String × Json) ← match j.getObjVal? "gap" with
+    | .error _ => pure []
+    | .ok gj => do
+      let p ← getNat? gj "p"
+      let ins := (← getStr? gj "ins").toList
+      let toks' ← (← getArr? gj "toks").mapM parseRow
+      let g1' ← (← getArr? gj "g1").mapM parseSpanRow
+      let inp' := Peg.extendGap inp p ins
+      let ext := load c cfg inp' toks' groups g1' fuel
+      let ej := outcomeToJson ext
+      let ok := Peg.gapExtOkB (c.grammar inp toks) p ins toks' cfg.skipws cfg.ws
+      let g1ok := !cfg.useRegexpGroup || Tx.g1CompatB g1 g1' inp.size p ins.length
+      pure [("gap", Json.mkObj [("input", String.ofList inp'.toList), ("mirror", ej), ("ok", ok), ("g1ok", g1ok),
+        ("same", ej.compress == mj.compress)])]
+  pure (Json.mkObj ([("mirror", mj), ("sem", sj)] ++ (if fixes.isEmpty then [] else [("fixes", Json.mkObj fixes)]) ++ gap))
 
 def handle1 (j : Json) : Json :=
   match getStr? j "op" with
